@@ -251,6 +251,11 @@ func cmdCheck(args []string) int {
 			seenMsg[v.Kind+v.Msg]++
 			out := replayNative(scratch, ov, pi, v, hTier, nViol)
 			totalReplays += out.Runs
+			if v.Kind == "NONTERMINATION" && out.Verdict == "reproduced" && !strings.Contains(out.Detail, "HANG") && !strings.Contains(out.Detail, "timed out") {
+				// only a native run that does not finish confirms a non-termination candidate
+				// (any other native failure of these inputs is reported on its own path)
+				out.Verdict = "passed"
+			}
 			switch out.Verdict {
 			case "reproduced":
 				he.Confirmed++
